@@ -97,7 +97,10 @@ CLAIMED = {
               "an exited block; an un-interrupted block is transparent; an interruption happens exactly at max(min deadline, "
               "now), never earlier, and does happen when the suspension outlasts it; two-level nesting with symbolic "
               "deadlines: outer-first (inner sees TimeoutCancellationError, no expiry; outer reports), inner-first (TaskTimeout; "
-              "un-handled -> UncaughtTimeoutError outside; ignore form ends quietly), body-first (nothing reported). "
+              "un-handled -> UncaughtTimeoutError outside; ignore form ends quietly), body-first (nothing reported); and for ANY body "
+              "(any nesting below) the level of reporting: UncaughtTimeoutError leaves a block only when a TaskTimeout or that very "
+              "error left its body, TaskTimeout only when it left the body or the block itself expired, an ignore block ends quietly "
+              "only when its body did or it expired itself. "
               "Correspondence: random programs compiled to real coroutines on a virtual-time loop, per-block comparison."),
         note=TB + "Partial: equal timer instants (asyncio heap order) are excluded and detected at run time; the event loop and Task.cancel semantics are those of CPython 3.12.1 as modelled by the three wake-up sources of `await`.",
         technique="Coq proof (structural induction over programs, symbolic execution with lia for the nesting theorems) + vm_compute correspondence against aiorpcx.curio on a virtual clock",
@@ -228,7 +231,8 @@ CLAIMED = {
               "the gate is closed; each message reaches the transport at most once and only from a completed write; a resume "
               "releases every blocked writer; a writer blocked for max_send_delay aborts the connection and gets TaskTimeout; "
               "connection loss releases all blocked writers, which then write nothing. Whether a woken writer re-checks the "
-              "gate is probed on the running RSTransport and USTransport on every run. The property was FALSE on the original "
+              "gate, and that a framed message of any size (0 bytes to 1 MiB) is handed to the socket in one write call, is probed "
+              "on the running RSTransport and USTransport on every run. The property was FALSE on the original "
               "tree (F14): repaired by a fix: commit. Correspondence: scenarios on a real session over both transport classes "
               "and a fake asyncio transport with a high-water mark (wire order, blind writes, time-outs, reading flag)."),
         note=TB + "Partial: asyncio's Event waiter order and the real transports' buffering are trusted; timer ties (a stall ending exactly when another event is due) are avoided by the generator.",
@@ -267,7 +271,7 @@ CLAIMED = {
               "still running are then cancelled (follows for the end state from C09), that join raises no member exception, "
               "and the result/exception properties. "
               "Correspondence: as C09 plus the cancellation requests after every handle; oracle computed from the real run alone."),
-        note=TB + "Partial: next_done called by the application between join's iterations and the retain option (the tasks attribute) are not in the model; the tasks attribute is checked on the real runs by the oracle (retain on and off).",
+        note=TB + "Partial: next_done called by the application is in the model only where it does not have to wait and before the joining task has run (label LAppNext; what it takes does not count for completed); calls between join's iterations and the retain option (the tasks attribute) are not in the model; the tasks attribute is checked on the real runs by the oracle (retain on and off).",
         technique="Coq proof (order / exactly-once / first-finisher invariants by induction over label lists, generic preservation lemma for the joining coroutine) + per-handle vm_compute trace correspondence + policy oracle on the real runs",
         ref='6/C10'),
     'C08': dict(
